@@ -19,15 +19,15 @@ Local Open Scope bool_scope.
 Local Open Scope list_scope.
 
 Inductive ptok :=
-| KName (s : string)
-| KInt (n : N)
-| KStr (lit : string)
-| KSym (s : string).
+| TkName (s : string)
+| TkInt (n : N)
+| TkStr (lit : string)
+| TkSym (s : string).
 
 Definition ptok_eqb (a b : ptok) : bool :=
   match a, b with
-  | KName x, KName y | KStr x, KStr y | KSym x, KSym y => String.eqb x y
-  | KInt x, KInt y => N.eqb x y
+  | TkName x, TkName y | TkStr x, TkStr y | TkSym x, TkSym y => String.eqb x y
+  | TkInt x, TkInt y => N.eqb x y
   | _, _ => false
   end.
 
@@ -56,26 +56,26 @@ Fixpoint tjoin (sep : list ptok) (parts : list (list ptok)) : list ptok :=
 Fixpoint path_toks (path : list string) : list ptok :=
   match path with
   | [] => []
-  | [n] => [KName n]
-  | n :: more => KName n :: KSym "." :: path_toks more
+  | [n] => [TkName n]
+  | n :: more => TkName n :: TkSym "." :: path_toks more
   end.
 
 Fixpoint flatten (s : syn) : list ptok :=
   let fargs (args : list (option string * syn)) : list ptok :=
-    KSym "(" :: tjoin [KSym ","] (map (fun a => match fst a with
-                                             | Some k => KName k :: KSym "=" :: flatten (snd a)
+    TkSym "(" :: tjoin [TkSym ","] (map (fun a => match fst a with
+                                             | Some k => TkName k :: TkSym "=" :: flatten (snd a)
                                              | None => flatten (snd a)
-                                             end) args) ++ [KSym ")"] in
+                                             end) args) ++ [TkSym ")"] in
   match s with
   | SAtom t => [t]
-  | SList xs => KSym "[" :: tjoin [KSym ","] (map flatten xs) ++ [KSym "]"]
-  | STuple xs => KSym "(" :: tjoin [KSym ","] (map flatten xs) ++ [KSym ")"]
+  | SList xs => TkSym "[" :: tjoin [TkSym ","] (map flatten xs) ++ [TkSym "]"]
+  | STuple xs => TkSym "(" :: tjoin [TkSym ","] (map flatten xs) ++ [TkSym ")"]
   | SDict tr kvs =>
-      KSym "{" :: tjoin [KSym ","] (map (fun kv => flatten (fst kv) ++ KSym ":" :: flatten (snd kv)) kvs)
-        ++ (if tr && negb (match kvs with [] => true | _ => false end) then [KSym ","] else []) ++ [KSym "}"]
-  | SPar x => KSym "(" :: flatten x ++ [KSym ")"]
+      TkSym "{" :: tjoin [TkSym ","] (map (fun kv => flatten (fst kv) ++ TkSym ":" :: flatten (snd kv)) kvs)
+        ++ (if tr && negb (match kvs with [] => true | _ => false end) then [TkSym ","] else []) ++ [TkSym "}"]
+  | SPar x => TkSym "(" :: flatten x ++ [TkSym ")"]
   | SCall path args => path_toks path ++ fargs args
-  | SMeth recv m args => flatten recv ++ KSym "." :: KName m :: fargs args
+  | SMeth recv m args => flatten recv ++ TkSym "." :: TkName m :: fargs args
   end.
 
 (* ------------------------------------------------------------------ parser *)
@@ -85,13 +85,13 @@ Inductive el :=
 | ESyn (s : syn)                                   (* a reduced bracket: list, tuple, dict, parenthesised expression *)
 | EArgs (args : list (option string * syn)).       (* a reduced argument list *)
 
-Definition ksym_is (t : ptok) (s : string) : bool := match t with KSym x => String.eqb x s | _ => false end.
+Definition ksym_is (t : ptok) (s : string) : bool := match t with TkSym x => String.eqb x s | _ => false end.
 
 (* method-call trailers:  "." NAME "(" args ")" ... *)
 Fixpoint trailers (acc : syn) (es : list el) : option syn :=
   match es with
   | [] => Some acc
-  | ETok d :: ETok (KName m) :: EArgs a :: r => if ksym_is d "." then trailers (SMeth acc m a) r else None
+  | ETok d :: ETok (TkName m) :: EArgs a :: r => if ksym_is d "." then trailers (SMeth acc m a) r else None
   | _ => None
   end.
 
@@ -99,16 +99,16 @@ Fixpoint trailers (acc : syn) (es : list el) : option syn :=
 Fixpoint path_go (acc : list string) (es : list el) : option syn :=
   match es with
   | EArgs a :: r => trailers (SCall (rev acc) a) r
-  | ETok d :: ETok (KName m) :: r => if ksym_is d "." then path_go (m :: acc) r else None
+  | ETok d :: ETok (TkName m) :: r => if ksym_is d "." then path_go (m :: acc) r else None
   | _ => None
   end.
 
 Definition mk_chain (es : list el) : option syn :=
   match es with
-  | [ETok (KStr l)] => Some (SAtom (KStr l))
-  | [ETok (KInt n)] => Some (SAtom (KInt n))
-  | ETok (KName n) :: r =>
-      if is_const_name n then match r with [] => Some (SAtom (KName n)) | _ => None end
+  | [ETok (TkStr l)] => Some (SAtom (TkStr l))
+  | [ETok (TkInt n)] => Some (SAtom (TkInt n))
+  | ETok (TkName n) :: r =>
+      if is_const_name n then match r with [] => Some (SAtom (TkName n)) | _ => None end
       else path_go [n] r
   | ESyn s :: r => trailers s r
   | _ => None
@@ -202,7 +202,7 @@ Definition closes (k : bk) (s : string) : bool :=
 
 Definition head_is_callee (f : frame) : bool :=
   match fpiece f with
-  | ETok (KName n) :: _ => negb (is_const_name n)
+  | ETok (TkName n) :: _ => negb (is_const_name n)
   | _ => false
   end.
 
@@ -215,7 +215,7 @@ Fixpoint pscan (ts : list ptok) (cur : frame) (stack : list frame) : option syn 
           end
   | t :: ts' =>
       match t with
-      | KSym s =>
+      | TkSym s =>
           if String.eqb s "(" then pscan ts' (new_frame (if head_is_callee cur then BCall else BParen)) (cur :: stack)
           else if String.eqb s "[" then pscan ts' (new_frame BList) (cur :: stack)
           else if String.eqb s "{" then pscan ts' (new_frame BDict) (cur :: stack)
@@ -234,7 +234,7 @@ Fixpoint pscan (ts : list ptok) (cur : frame) (stack : list frame) : option syn 
             end
           else if String.eqb s "=" then
             match fk cur, fpend cur, fpiece cur with
-            | BCall, PNo, [ETok (KName k)] => pscan ts' (mkfr BCall (fitems cur) (fcomma cur) (PKw k) []) stack
+            | BCall, PNo, [ETok (TkName k)] => pscan ts' (mkfr BCall (fitems cur) (fcomma cur) (PKw k) []) stack
             | _, _, _ => None
             end
           else if String.eqb s ")" || String.eqb s "]" || String.eqb s "}" then
@@ -260,7 +260,7 @@ Definition parse_py (ts : list ptok) : option syn := pscan ts (new_frame BParen)
    and do not start with None / True / False, keyword names are not constants, the receiver of a method call is itself a
    call, a method call or a bracket *)
 Definition atom_ok (t : ptok) : bool :=
-  match t with KStr _ | KInt _ => true | KName n => is_const_name n | KSym _ => false end.
+  match t with TkStr _ | TkInt _ => true | TkName n => is_const_name n | TkSym _ => false end.
 Definition recv_ok (s : syn) : bool := match s with SAtom _ => false | _ => true end.
 
 Fixpoint wf_syn (s : syn) : bool :=
